@@ -133,7 +133,17 @@ class Driver:
         except (BrokenPipeError, OSError):
             pass
         raw = self._readline(line)
-        r = json.loads(raw.decode("latin-1"))
+        try:
+            r = json.loads(raw.decode("latin-1"))
+            if not isinstance(r, dict):
+                raise ValueError("not an object")
+        except ValueError:
+            # Only the driver writes to stdout, one JSON object per request.  Anything else there was
+            # written by the library (which must keep to stderr): report it like a crash on this request.
+            self.kill()
+            self.restarts += 1
+            self.start()
+            raise DriverCrash(line, "the library wrote to standard output while handling the request: %r" % raw[:200], -6)
         r["stderr"] = bytes.fromhex(r.get("stderr", ""))
         return r
 
@@ -166,14 +176,18 @@ class Driver:
 def spec_of(v):
     """Input-stack token(s) for a model value (see zwv.model)."""
     from . import model as M
+    # a position other than 0 is passed along (constants and strings: through the init functions; with
+    # via_clone: built at 0 and re-positioned with zw_value_clone)
+    at = "@%d" % v.pos if isinstance(getattr(v, "pos", None), int) and v.pos > 0 else ""
+    pre = "~" if at and getattr(v, "via_clone", False) and not isinstance(v, M.VSeq) else ""
     if isinstance(v, M.VConst):
         dom = v.dom
         tag = "J" if getattr(v, "force_signed", False) else "I"
-        return "%s%s:%d" % (tag, dom, v.value)
+        return "%s%s%s:%d%s" % (pre, tag, dom, v.value, at)
     if isinstance(v, M.VStr):
-        return "S" + (v.data.hex() if v.data else "")
+        return pre + "S" + (v.data.hex() if v.data else "") + at
     if isinstance(v, M.VSeq):
-        return "[ " + " ".join(spec_of(e) for e in v.items) + " ]"
+        return "[ " + " ".join(spec_of(e) for e in v.items) + " ]" + at
     raise ValueError("cannot pass %r on an input stack" % (v,))
 
 
